@@ -216,39 +216,51 @@ Definition oanno_corrb (a b : option anno) : bool :=
   | _, _ => false
   end.
 
-(* what the statement allows at one position: src = source annotation, tr = traced type, out = stub *)
-Definition allowed (s : nat) (recv : bool) (src : option anno) (tr : option ty) (out : option anno) : bool :=
-  if recv then oanno_corrb out (if is_strat "OMIT" s then None else src)     (* never a traced type *)
-  else if is_strat "REPLICATE" s then
+(* what the statement allows at one position: src = source annotation, tr = traced type, out = stub.
+   isR/isO/isI: which of the three documented modes is in force (kept abstract here so that the check
+   can evaluate the predicate by member NAME, independently of the regenerated value table). *)
+Definition allowed_b (isR isO isI : bool) (recv : bool) (src : option anno) (tr : option ty)
+           (out : option anno) : bool :=
+  if recv then oanno_corrb out (if isO then None else src)     (* never a traced type *)
+  else if isR then
     oanno_corrb out (match src with Some a => Some a | None => option_map ATy tr end)
-  else if is_strat "OMIT" s then
+  else if isO then
     oanno_corrb out (match src with Some _ => None | None => option_map ATy tr end)
-  else if is_strat "IGNORE" s then
+  else if isI then
     match tr with
     | Some t => oanno_corrb out (Some (ATy t))
     | None => oanno_corrb out None || oanno_corrb out src    (* the statement is silent: nothing invented *)
     end
   else false.
 
+Definition allowed (s : nat) : bool -> option anno -> option ty -> option anno -> bool :=
+  allowed_b (is_strat "REPLICATE" s) (is_strat "OMIT" s) (is_strat "IGNORE" s).
+
 Definition pkind_eqb (a b : pkind) : bool :=
   match a, b with PO, PO | PK, PK | VP, VP | KO, KO | VK, VK => true | _, _ => false end.
 Definition dflt_eqb (a b : dflt) : bool :=
   match a, b with DNo, DNo | DNone, DNone | DOther, DOther => true | _, _ => false end.
 
-Fixpoint spec_params (s : nat) (hs : bool) (args : list (string * ty)) (idx : nat)
-         (src out : list param) : bool :=
+Section SpecParams.
+Variable ok : bool -> option anno -> option ty -> option anno -> bool.   (* allowed s  /  allowed_b ... *)
+Fixpoint spec_params_with (hs : bool) (args : list (string * ty)) (idx : nat) (src out : list param) : bool :=
   match src, out with
   | [], [] => true
   | p :: ps, o :: os =>
       String.eqb (pname p) (pname o) && pkind_eqb (pk p) (pk o) && dflt_eqb (pdef p) (pdef o)
-      && allowed s (hs && Nat.eqb idx 0) (panno p) (lookup_f (pname p) args) (panno o)
-      && spec_params s hs args (S idx) ps os
+      && ok (hs && Nat.eqb idx 0) (panno p) (lookup_f (pname p) args) (panno o)
+      && spec_params_with hs args (S idx) ps os
   | _, _ => false
   end.
 
-Definition spec_sig (s : nat) (kind : string) (sg : sig) (tr : traced) (out : sig) : bool :=
-  spec_params s (has_self kind) (targs tr) 0 (sparams sg) (sparams out)
-  && allowed s false (sret sg) (traced_return (tret tr) (tyield tr)) (sret out).
+Definition spec_sig_with (hs : bool) (sg : sig) (tr : traced) (out : sig) : bool :=
+  spec_params_with hs (targs tr) 0 (sparams sg) (sparams out)
+  && ok false (sret sg) (traced_return (tret tr) (tyield tr)) (sret out).
+End SpecParams.
+
+Definition spec_params (s : nat) := spec_params_with (allowed s).
+Definition spec_sig (s : nat) (kind : string) : sig -> traced -> sig -> bool :=
+  spec_sig_with (allowed s) (has_self kind).
 
 (* which positions count as traced, read off the traces directly (the statement's "traced") *)
 Definition arg_traced (n : string) (trs : list trace) : bool :=
